@@ -3,7 +3,7 @@
 \* Measured: 1,734,434 distinct states, depth 51.
 CONSTANTS
   NV = 4
-  Power <- DrvUnitPower
+  PowerOf <- DrvPowerOf
   MaxVal = 1
   NValid = 1
   MaxRound = 0
